@@ -84,6 +84,17 @@ theorem cross_mulVec (Q : M3 K) (hQ : Q.transpose.mul Q = M3.one) (hd : Q.det = 
   simp only [M3.det] at hd
   ext <;> simp only [V3.cross, M3.mulVec] <;> grind
 
+/-- the intrinsic rotation of the curved detectors is covariant under rotations of the axes -/
+theorem curvedRot_cov (Q : M3 K) (hQ : Q.transpose.mul Q = M3.one)
+    (hd : Q.det = 1) (a0 a1 : V3 K) (w : V3 K) :
+    (curvedRot (Q.mulVec a0) (Q.mulVec a1)).mulVec w = Q.mulVec ((curvedRot a0 a1).mulVec w) := by
+  have hc := cross_mulVec Q hQ hd a1 a0
+  have e : ∀ (p q r : V3 K), (M3.ofCols p q r).mulVec w
+      = V3.add (V3.smul w.x p) (V3.add (V3.smul w.y q) (V3.smul w.z r)) := by
+    intro p q r; ext <;> simp only [M3.ofCols, M3.mulVec, V3.add, V3.smul] <;> ring
+  simp only [curvedRot, e, hc, M3.mulVec_neg]
+  ext <;> simp only [V3.add, V3.smul, V3.neg, M3.mulVec] <;> ring
+
 /-- `det (c·I + k·w wᵀ + [w]×) = (c² + |w|²)(c + k|w|²)` -/
 theorem det_rodrigues_form (cc k p q r : K) :
     (M3.mk (cc + k * (p * p)) (k * (p * q) - r) (k * (p * r) + q)
